@@ -27,10 +27,10 @@ from aldy.gene import Mutation
 
 PROPERTY = "C12"
 LEVEL = "exploration"
-FUNCTIONS = ["aldy.diplotype.write_decomposition", "aldy.diplotype.write_vcf"]
+FUNCTIONS = ["aldy.diplotype.write_decomposition", "aldy.diplotype.write_vcf",
+             "aldy.genotype.genotype (output-kind dispatch, lines 193-205 and 344-368)"]
 STUBS = ["output file -> io.StringIO; coverage -> real Coverage with 7 reads per variant"]
-OUTSIDE = ["genotype()'s output-kind dispatch and headers (exercised by the C10/C19 "
-           "harness only for the simple format)", "more than 2 solutions x 3 copies"]
+OUTSIDE = ["more than 2 solutions x 3 copies; the report/log text of genotype()"]
 ASSUMPTIONS = ["every path ends concrete: exhaustive within the bounds, not beyond"]
 RULE = ("cases = (solutions x copies x minor allele choice x added/lost flags), enumerated "
         "by the solver; non-trivial = at least one variant row; distinct = distinct cases")
@@ -44,7 +44,7 @@ def BOUNDS(tier):
 
 
 def configs(tier):
-    c = []
+    c = [{"kind": "dispatch"}]
     for g in ("toy", "GA"):
         for genome in (("hg19", "hg38") if tier == "thorough" else ("hg19",)):
             for nsol in (1, 2):
@@ -235,7 +235,83 @@ def spells(gene, m, ref, alt, strict):
     return True
 
 
+def run_dispatch(cfg):
+    """genotype()'s output-kind dispatch and headers (genotype.py:193-205,344-368) under
+    the stage stubs of the C10/C19 harness: which writer runs for which file name, how
+    many times, and the one-line simple format.  The number of reported solutions (1 or
+    2) is decided by a symbolic minor score."""
+    import genoharness
+    from symx import S
+    from aldy.common import AldyException
+
+    res = new_result(cfg)
+    eng = Engine(name="c12d")
+    plan = {"cn": [["1", "1"]], "major": {0: [{"1": 2}, {"1": 1, "3": 1}]},
+            "minor": {(0, 0): 1, (0, 1): 1}}
+    x = z3.Real("second_minor_score")
+    base = [x >= 0, x <= 5]
+
+    def score(kind, idx):
+        if kind == "minor" and idx == (0, 1, 0):
+            return S(x)
+        return 1.0
+
+    for ext in ("aldy", "vcf", "simple", "flag"):
+        def run():
+            h = genoharness.Harness(plan, score)
+            out = genoharness.Out("r." + ("aldy" if ext == "flag" else ext))
+            r = h.run(gap=0.1, output=out, is_simple=(ext == "flag"))
+            return list(r.values())[0], out.buf.getvalue()
+
+        for dec, pc, (sols, txt) in eng.explore(run, base):
+            lines = txt.splitlines()
+            n = len(sols)
+            probs = []
+            if ext == "aldy":
+                hdr = [l for l in lines if l.startswith("#Sample")]
+                sl = [l for l in lines if l.startswith("#Solution ")]
+                rows = [l for l in lines if not l.startswith("#")]
+                ids = sorted({l.split("\t")[2] for l in rows})
+                if len(hdr) != 1 or lines[0] != "#" + "\t".join(OUTPUT_COLS):
+                    probs.append("column header missing or repeated")
+                if [l.split(":")[0] for l in sl] != [f"#Solution {i + 1}" for i in range(n)]:
+                    probs.append(f"solution headers {sl}")
+                if ids != [str(i + 1) for i in range(n)]:
+                    probs.append(f"solution ids in rows {ids} for {n} solutions")
+            elif ext == "vcf":
+                hdr = [l for l in lines if l.startswith("#CHROM")]
+                if len(hdr) != 1 or len(hdr[0].split("\t")) != 9 + n:
+                    probs.append(f"VCF header columns for {n} solutions: {hdr}")
+                if any(l.startswith("#Solution") for l in lines):
+                    probs.append("decomposition written into a VCF")
+            else:
+                if len(lines) != 1 or not txt.endswith("\n"):
+                    probs.append(f"simple output is not one line: {txt!r}")
+                else:
+                    f = lines[0].split("\t")
+                    want = ["sample", "TOY"]
+                    for s_ in sols:
+                        want += [s_.get_major_diplotype().replace(" ", ""),
+                                 s_.get_minor_diplotype(legacy=True).replace(" ", "")]
+                    if [c_ for c_ in f if c_ != ""] != want:
+                        probs.append(f"simple line {f} expected {want}")
+            ob(res, f"dispatch/{ext}: the right writer, once, for {n} reported solution(s)",
+               "holds" if not probs else "sat")
+            for p_ in probs:
+                res["violations"].append({
+                    "what": f"output kind {ext} with {n} solutions: {p_}",
+                    "key": f"dispatch-{ext}", "replay": {"kind": "dispatch"}})
+    seen = {}
+    for v in res["violations"]:
+        seen.setdefault(v["key"], v)
+    res["violations"] = list(seen.values())
+    res["stats"] = dict(eng.stats)
+    return res
+
+
 def run_config(cfg):
+    if cfg.get("kind") == "dispatch":
+        return run_dispatch(cfg)
     res = new_result(cfg)
     gene = gengene.load(cfg["gene"], cfg["genome"])
     mins = minors(gene)
@@ -320,6 +396,9 @@ def classify(p):
 
 
 def replay(o):
+    if o.get("kind") == "dispatch":
+        r = run_dispatch({"kind": "dispatch"})
+        return bool(r["violations"]), "; ".join(v["what"] for v in r["violations"][:2])
     gene = gengene.load(o["gene"], o["genome"])
     cov = coverage_for(gene)
     sols = [make_solution(gene, [tuple(x) for x in p]) for p in o["picks"]]
